@@ -70,6 +70,15 @@ def _corr_name(d: str) -> str:
     return "corr:M8/rawtext"
 
 
+def _is_parser_error(cls_name: str) -> bool:
+    """is the named exception class one of pyrtma's own ParserError family (a reasoned rejection), or "generator"?"""
+    if cls_name == "generator":
+        return True
+    from pyrtma import parser as P
+    c = getattr(P, cls_name, None)
+    return isinstance(c, type) and issubclass(c, P.ParserError)
+
+
 def _count(d: Dict[str, int], k: str):
     d[k] = d.get(k, 0) + 1
 
@@ -97,8 +106,16 @@ def _feed(res: C.Result, recs: List[Dict[str, Any]]):
     lines: List[str] = []
     for r in recs:
         if "rejected" in r:
-            _count(ex.setdefault("rejected_by_parser", {}), r["rejected"].get("cls", "?"))
+            cls = r["rejected"].get("cls", "?")
+            _count(ex.setdefault("rejected_by_parser", {}), cls)
             res.sample({"rejected": r["tag"], "why": r["rejected"]}, cap=3)
+            if not _is_parser_error(cls):
+                # the generated trees are well-formed: an exception that is not a ParserError means the definition got no
+                # hash at all — the model has a text for it, the implementation nothing (never a silent skip)
+                res.corr_diffs.append({"name": "corr:M8/parser-crashes-on-generated-tree",
+                                       "diff": f"{r['tag']}: {cls}: {r['rejected'].get('msg', '')}"[:300],
+                                       "case": {"tag": r["tag"], "base": r["base"], "variant": r["variant"],
+                                                "target_a": r["target_a"], "target_b": r["target_b"], "uses_ref": False}})
             continue
         lines += r["lines"] + r["extra_lines"]
     raw = C.run_driver("hashtext", lines)
@@ -172,7 +189,10 @@ def _outputs(res: C.Result, deep: bool):
         # the definition that carries the name with the prefix taken out: every message must have its OWN entry in every
         # output, with its own hash — not another definition's, not filed under a shortened name
         j = 0
+        # quick tier: `hash_` and `MT_` in every tree, the other prefixes spread over the trees; thorough: all in every tree
         for pi, pre in enumerate(H.TABLE_PREFIXES):
+            if not deep and pi >= 2 and (pi - 2) % n != k % n:
+                continue
             for nm, other in ((f"{pre}ZQ{k}x{pi}A", f"ZQ{k}x{pi}A"), (f"Re{pre}ZR{k}x{pi}", f"ReZR{k}x{pi}")):
                 for name in ((other, nm) if (k + j) % 2 == 0 else (nm, other)):      # either definition order
                     mid = next(i for i in range(8300 + 40 * k + j, 9999) if i not in used_ids)
@@ -185,6 +205,9 @@ def _outputs(res: C.Result, deep: bool):
             got = H.outputs_check(tree, names)
         except Exception as e:  # the tree may be rejected with the core definitions switched on (name clash): skip
             _count(ex.setdefault("outputs_skipped", {}), type(e).__name__)
+            if not _is_parser_error(type(e).__name__):
+                res.corr_diffs.append({"name": "corr:M8/compile-crashes-on-generated-tree",
+                                       "diff": f"{type(e).__name__}: {e}"[:300], "case": {"tag": "outputs", "tree": tree, "message": names[0], "observed": {}}})
             continue
         if "_sender_error" in got:
             res.corr_diffs.append({"name": "corr:C13/sender-probe", "diff": got["_sender_error"], "case": {"tree": tree}})
@@ -233,7 +256,7 @@ def _outputs(res: C.Result, deep: bool):
             res.failures.append(C.Failure(clause=cl, case=case, detail=f"{nme}: {cl} (Spec judgeOutputs on {g})"))
     ex["outputs_agreeing"] = langs
     ex["outputs_trees"] = n
-    if sum(ex.get("outputs_skipped", {}).values()) >= n:
+    if sum(ex.get("outputs_skipped", {}).values()) >= n and not res.corr_diffs:
         raise C.MachineryError(f"the outputs check ran on none of its {n} trees: {ex.get('outputs_skipped')}")
 
 
